@@ -113,15 +113,37 @@ def r16_1(prog, rep, reg):
     reads = {n.attr for n in ast.walk(ecb.node) if isinstance(n, ast.Attribute) and isinstance(n.value, ast.Name) and n.value.id == b}
     obl(rep, ecb, ecb.node, "R16.1", {"data", "levels", "contrast"} <= reads, "eval_categorical_box honours all three box fields (data, levels, contrast)", str(sorted(reads)),
         f"eval_categorical_box reads only {sorted(reads)}: an option of C/T/S is ignored")
-    defs = {unparse(s.targets[0]): unparse(s.value) for s in walk_local(ecb.node) if isinstance(s, ast.Assign) and len(s.targets) == 1}
-    ifs = {unparse(i.test): [unparse(s) for s in i.body] + ["else"] + [unparse(s) for s in i.orelse] for i in walk_local(ecb.node) if isinstance(i, ast.If)}
-    ok = ifs.get("levels is None") == ["categories = sorted(list(set(data)))", "else", "categories = levels"]
-    obl(rep, ecb, ecb.node, "R16.1", ok, "explicit levels reach the categories unchanged (levels fix the order); otherwise sorted observed values", str(ifs.get("levels is None")))
-    ok = ifs.get("contrast is None") == ["contrast = Treatment()", "else"]
-    obl(rep, ecb, ecb.node, "R16.1", ok, "no contrast given -> Treatment() (first level is the reference)")
-    uses = [unparse(x.func) for x in calls_in(ecb.node) if isinstance(x.func, ast.Attribute) and x.func.attr.startswith("code_")]
-    obl(rep, ecb, ecb.node, "R16.1", sorted(uses) == ["contrast.code_with_intercept", "contrast.code_without_intercept"],
-        "the box's own contrast object codes the factor", str(uses))
+    # decided on the abstract values stored by the method (names of temporaries and statement order do not matter)
+    from .C04 import _attr_stores
+    try:
+        _f, st = _attr_stores(prog, "terms.call.Call.eval_categorical_box")
+    except AnalysisError as e:
+        rep.defer(f"R16.1: {e}")
+        return
+    lv = [x for x in st if x[0] == "self.levels"]
+    V = ast.parse(lv[0][1], mode="eval").body if len(lv) == 1 else None
+    ok = False
+    shown = lv[0][1] if lv else ""
+    if isinstance(V, ast.IfExp) and unparse(V.test) in (f"{b}.levels is None", f"{b}.levels is not None"):
+        given, derived = (V.orelse, V.body) if unparse(V.test).endswith("is None") else (V.body, V.orelse)
+        from .C04 import order_kind
+        ok = unparse(given) == f"{b}.levels" and order_kind(derived) == "canonical" and f"{b}.data" in unparse(derived)
+    obl(rep, ecb, lv[0][4] if lv else ecb.node, "R16.1", ok,
+        "explicit levels reach the categories unchanged (levels fix the order); otherwise sorted observed values", shown[:120])
+    cm = [x for x in st if x[0] == "self.contrast_matrix"]
+    recv = set()
+    for x in cm:
+        e = ast.parse(x[1], mode="eval").body
+        if isinstance(e, ast.Call) and isinstance(e.func, ast.Attribute) and e.func.attr.startswith("code_"):
+            recv.add(unparse(e.func.value))
+    r0 = ast.parse(next(iter(recv)), mode="eval").body if len(recv) == 1 else None
+    ok = isinstance(r0, ast.IfExp) and unparse(r0.test) in (f"{b}.contrast is None", f"{b}.contrast is not None")
+    if ok:
+        dflt, given = (r0.body, r0.orelse) if unparse(r0.test).endswith("is None") else (r0.orelse, r0.body)
+        ok = unparse(dflt) == "Treatment()" and unparse(given) == f"{b}.contrast"
+    obl(rep, ecb, cm[0][4] if cm else ecb.node, "R16.1", ok, "no contrast given -> Treatment() (first level is the reference)", str(sorted(recv))[:120])
+    obl(rep, ecb, cm[0][4] if cm else ecb.node, "R16.1", ok and len(cm) == 2,
+        "the box's own contrast object codes the factor", str(sorted(recv))[:120])
 
 
 def r16_2(prog, rep, reg):
